@@ -121,11 +121,26 @@ class _CircuitAttacher(object):
 def _get_circuit_attacher(reactor, state):
     if _get_circuit_attacher.attacher is None:
         _get_circuit_attacher.attacher = _CircuitAttacher()
-        yield state.set_attacher(_get_circuit_attacher.attacher, reactor)
-    return _get_circuit_attacher.attacher
+        _get_circuit_attacher.installed = installed = SingleObserver()
+
+        def failed(fail):
+            # (e.g. some other attacher is set already) try again next time
+            if _get_circuit_attacher.installed is installed:
+                _get_circuit_attacher.attacher = None
+            return fail
+        d = defer.maybeDeferred(state.set_attacher, _get_circuit_attacher.attacher, reactor)
+        d.addErrback(failed)
+        d.addBoth(installed.fire)
+        d.addErrback(lambda _: None)  # (delivered via .installed)
+    # everyone waits until Tor was told to leave streams unattached,
+    # not only the caller that created the attacher
+    attacher = _get_circuit_attacher.attacher
+    yield _get_circuit_attacher.installed.when_fired()
+    return attacher
 
 
 _get_circuit_attacher.attacher = None
+_get_circuit_attacher.installed = None
 
 
 @implementer(IStreamClientEndpoint)
